@@ -116,30 +116,31 @@ def check(ctx):
             elif e0 is not None and e0.idx == ('FRAME', 'roll?'):
                 ctx.ob('R2', fi, n_, None, 'shift of the circular comparison is not +-1')
     # ---- R4
-    for meth, fill in (('states_prev', 'gemdat.utils.ffill'), ('states_next', 'gemdat.utils.bfill')):
+    for meth, want_back in (('states_prev', False), ('states_next', True)):
         fm = ctx.fn(f'{TR}.{meth}')
         itm = ctx.entry(fm.qualname)
-        calls = [e for e in itm.events if e['tag'] == 'call' and e['where'] is not None and e['where'].qualname == fm.qualname
-                 and e['callee'] in ('gemdat.utils.ffill', 'gemdat.utils.bfill')]
-        if not calls:
-            ctx.ob('R4', fm, meth, None, 'fill call not recognised')
+        r = itm.result
+        f = r.filled if r is not None else None
+        if f is None:
+            ctx.ob('R4', fm, 'return value', None, 'the returned array is not recognised as a forward / backward fill')
             continue
-        e = calls[0]
         probs = []
-        if e['callee'] != fill:
-            probs.append(f'{meth} uses {e["callee"].split(".")[-1]}: previous and next site are exchanged')
-        arr = e['args'][0] if e['args'] else e['kwargs'].get('arr')
-        node = e['node']
-        a0 = norm_text(node.args[0]) if node.args else None
-        if a0 != 'self.states':
-            probs.append(f'fills {a0} instead of the outer states')
-        fv = e['kwargs'].get('fill_val') or (e['args'][1] if len(e['args']) > 1 else None)
-        if fv is None or not (fv.nosite_marker or (has_const(fv) and cval(fv) == -1)):
+        back = bool(f['inflip'])
+        if r.flipped:
+            probs.append('the filled array is returned in reversed order')
+        elif back != want_back:
+            probs.append(f'{meth} is a {"backward" if back else "forward"} fill: previous and next site are exchanged')
+        if f['store'] != 'attr:Transitions.states':
+            probs.append(f'fills {(f["store"] or "another array").replace("attr:", "")} instead of the outer states')
+        mk = f['marker']
+        if mk is None or not (mk.nosite_marker or mk.gname == 'gemdat.transitions.NOSITE' or (has_const(mk) and cval(mk) == -1)):
             probs.append('fill marker is not NOSITE')
-        ax = e['kwargs'].get('axis') or (e['args'][2] if len(e['args']) > 2 else None)
-        if ax is None or not (has_const(ax) and cval(ax) == 0):
-            probs.append('does not fill along the frame axis (axis=0)')
-        ctx.ob('R4', fm, node, not probs, '; '.join(probs) if probs else f'{fill.split(".")[-1]} of the states along frames with NOSITE')
+        if f['axis'] != 'frame':
+            probs.append(f'does not fill along the frame axis (fills along {f["axis"]})')
+        if r.axes is not None and r.axes != ('frame', 'atom'):
+            probs.append(f'the result is laid out {r.axes} instead of [frame, atom]')
+        ctx.ob('R4', fm, 'return value', not probs, '; '.join(probs) if probs else
+               f'{"backward" if want_back else "forward"} fill of the states along frames with NOSITE')
     check_fill_helpers(ctx)
     # the fill helpers are read-only on their argument (states_prev / states_next must not alter Transitions.states)
     for meth in ('states_prev', 'states_next'):
@@ -159,11 +160,29 @@ def check(ctx):
 
 
 def check_fill_helpers(ctx):
-    """bfill mirrors ffill (flip, forward fill with the same marker, flip back)."""
-    fb = ctx.fn('gemdat.utils.bfill')
-    last = fb.node.body[-1]
-    main = last.value if isinstance(last, ast.Return) else None
-    txt = norm_text(main).replace(' ', '') if main is not None else ''
-    ok = txt in ('np.fliplr(ffill(np.fliplr(arr),fill_val=fill_val))', 'np.fliplr(ffill(np.fliplr(arr),fill_val))')
-    ctx.ob('R4', fb, main if main is not None else 'bfill', True if ok else None,
-           'backward fill = flipped forward fill with the same marker' if ok else 'bfill is not written as the mirror of ffill')
+    """ffill fills forward and bfill backward along the requested axis, for the default axis and for axis=0."""
+    from ..interp import AV, const
+    for name, want_back in (('ffill', False), ('bfill', True)):
+        fh = ctx.fn(f'gemdat.utils.{name}')
+        for axis, along in ((None, 'c'), (0, 'r')):
+            arr = AV(ty='ndarray', axes=('r', 'c'), store='param:arr', dtype='int')
+            args = dict(arr=arr, fill_val=AV(ty='int', marker_param=True))
+            if axis is not None:
+                args['axis'] = const(axis)
+            ith = ctx.entry(fh.qualname, args=args)
+            r = ith.result
+            f = r.filled if r is not None else None
+            what = f'{name}(arr, axis={axis if axis is not None else "default"})'
+            if f is None:
+                ctx.ob('R4', fh, what, None, f'{name} is not recognised as a fill along one axis')
+                continue
+            probs = []
+            if r.flipped:
+                probs.append('result is returned in reversed order')
+            elif bool(f['inflip']) != want_back:
+                probs.append(f'{name} fills {"backward" if f["inflip"] else "forward"}')
+            if f['axis'] != along:
+                probs.append(f'fills along axis {f["axis"]} instead of {along}')
+            if r.axes is not None and r.axes != ('r', 'c'):
+                probs.append('result layout differs from the input layout')
+            ctx.ob('R4', fh, what, not probs, '; '.join(probs) if probs else f'{"backward" if want_back else "forward"} fill along the requested axis')
